@@ -1,6 +1,7 @@
 use crate::fw::Ctx;
 
 pub mod c02;
+pub mod c03;
 pub mod c10;
 
 pub struct Check {
@@ -15,6 +16,11 @@ pub fn lookup(id: &str) -> Option<Check> {
             id: "C02",
             level: "exploration",
             run: c02::run,
+        },
+        Check {
+            id: "C03",
+            level: "exploration",
+            run: c03::run,
         },
         Check {
             id: "C10",
